@@ -200,7 +200,7 @@ pub const FIXED_HAYS: &[&str] = &[
     "\u{212A}", "s\u{17F}S", "ß", "a\u{1F600}b", "x1_ -", "AbC", "\r\n", "aaab", "xaaac",
 ];
 const HAY_ALPHA: &[&str] = &["a", "b", "c", "a", "b", "é", "K", "k", "s", "S", "\u{17F}", "\u{212A}", "ß", "\u{1F600}", "\n", "x", "_", "1", "-", " ", "A", "B", "\u{2028}", "ü"];
-const ASCII_ALPHA: &[&str] = &["a", "b", "c", "a", "b", "K", "k", "s", "S", "\n", "x", "_", "1", "-", " ", "A", "B", "\r", "\x7f", "\0"];
+const ASCII_ALPHA: &[&str] = &["a", "b", "c", "a", "b", "K", "k", "s", "S", "\n", "x", "_", "1", "-", " ", "A", "B", "\r", "\x7f", "\0", "@", "`", "[", "{", "^", "~", "]", "}", "Z", "z"];
 
 pub fn gen_hay(r: &mut Rng, ascii: bool) -> String {
     if r.chance(1, 5) {
@@ -252,6 +252,22 @@ pub fn shape_family() -> Vec<(String, String, Vec<String>)> {
         "ééééééééé", "aééééééééé", "aaaaaaaaaab", "xaaaaaaaac", "abcd", "acd", "K\u{212A}k", "a\nb", "x ax", "bbc", "aaaa",
     ];
     let mut out = vec![];
+    // ASCII case-folding pairs: every byte next to itself, its bit-5 partner and its neighbours,
+    // for case-insensitive backreferences and literals in both modes
+    let mut pair_hays: Vec<String> = vec![];
+    for c in 0u8..128 {
+        for d in [c, c ^ 0x20, c.wrapping_add(1) & 0x7f, c.wrapping_sub(1) & 0x7f] {
+            let mut t = String::new();
+            t.push(c as char);
+            t.push(d as char);
+            pair_hays.push(t);
+        }
+    }
+    for p in ["(.)\\1", "(?<=\\1(.))$", "([a-z@\\[^])\\1", "(?s:(.)\\1)"] {
+        for f in ["i", "iu", "", "is"] {
+            out.push((p.replace("\\\\", "\\"), f.to_string(), pair_hays.clone()));
+        }
+    }
     for c in contexts.iter() {
         for b in bodies.iter() {
             for f in flags.iter() {
